@@ -304,7 +304,17 @@ fn impl_encode(data: &Data, type_name: &Ident, crate_path: &syn::Path) -> TokenS
 
 			// If the enum has no variants, we don't need to encode anything.
 			if variants.is_empty() {
-				return quote!();
+				return quote! {
+					fn size_hint(&#self_) -> usize {
+						0_usize
+					}
+
+					fn encode_to<__CodecOutputEdqy: #crate_path::Output + ?::core::marker::Sized>(
+						&#self_,
+						_: &mut __CodecOutputEdqy
+					) {
+					}
+				};
 			}
 
 			let recurse = variants.iter().enumerate().map(|(i, f)| {
